@@ -2,7 +2,7 @@
 # Offline setup: nothing to build; parse every specification module and import the harness once.
 set -e
 cd "$(dirname "$0")/../spec"
-for m in MC_Timeline TimelineTrace MC_Solver SolverTrace ReportTrace; do
+for m in MC_Timeline TimelineTrace MC_Solver SolverTrace ReportTrace Builder; do
   tla-sany $m.tla > /tmp/sany_$m.log 2>&1 || { cat /tmp/sany_$m.log; exit 1; }
   if grep -q "Semantic errors\|Parse Error\|\*\*\* Errors" /tmp/sany_$m.log; then cat /tmp/sany_$m.log; exit 1; fi
   rm -f /tmp/sany_$m.log
